@@ -1021,6 +1021,127 @@ def corr_borealis(ctx, sf, fx):
     return reqs, pend
 
 
+def corr_xchecks(ctx, sf):
+    """numpy.allclose model, thewalrus expand model, and the validation verdicts of Xunitary / Xcov on the symplectic
+    matrix GaussianUnitary hands them (spied), incl. inputs a few percent on either side of the tolerances"""
+    import strawberryfields.ops as ops
+    import strawberryfields.compilers.xunitary as xu
+    import strawberryfields.compilers.xcov as xc
+    from strawberryfields.compilers.gaussian_unitary import GaussianUnitary
+    from strawberryfields.decompositions import takagi
+    from strawberryfields.program_utils import CircuitError
+    from thewalrus.symplectic import expand
+    from thewalrus.quantum import Amat
+    rng = ctx.rng
+    nprng = ctx.nprng(77)
+    reqs, pend = [], []
+    # ---- allclose on complex scalars
+    pairs, impl = [], []
+    for _ in range(ctx.n(300, 3000)):
+        b = complex(rng.choice([0.0, rng.uniform(-1, 1)]), rng.choice([0.0, rng.uniform(-1, 1)])) * rng.choice([1, 1e-3, 1e-6])
+        thr = 1e-8 + 1e-5 * abs(b)
+        f = rng.choice([0.0, 0.5, 0.97, 1.03, 2.0, 50.0])
+        a = b + thr * f * np.exp(1j * rng.uniform(0, 2 * PI))
+        pairs.append([[F(a.real), F(a.imag)], [F(b.real), F(b.imag)]])
+        impl.append(bool(np.allclose(a, b)))
+        ctx.count("corr:allclose", None, True)
+    reqs.append(dict(op="hw.close", pairs=pairs))
+    pend.append(("numpy.allclose (complex scalars)", dict(n=len(pairs)), impl))
+    # ---- expand
+    for _ in range(ctx.n(30, 200)):
+        N = rng.randint(1, 5)
+        k = rng.randint(1, N)
+        modes = rng.sample(range(N), k)
+        S = nprng.integers(-9, 9, size=(2 * k, 2 * k)).astype(float)
+        out = expand(S, modes, N)
+        case = dict(N=N, modes=modes)
+        ctx.count("corr:expand", case, k >= 2 and modes != sorted(modes))
+        reqs.append(dict(op="hw.expand", S=[[F(x) for x in r] for r in S], modes=modes, N=N))
+        pend.append(("thewalrus expand", case, [[F(x) for x in r] for r in out]))
+    # ---- Xunitary / Xcov verdicts
+    msgs = {"do not correspond to an interferometer": "not-interferometer", "cannot mix": "mix", "must be identical": "not-identical"}
+
+    def spy_class(store):
+        class Spy(GaussianUnitary):
+            def compile(self, seq, registers):
+                out = super().compile(seq, registers)
+                store.append(out)
+                return out
+        return Spy
+
+    for k in range(ctx.n(70, 600)):
+        comp = "Xunitary" if k % 2 == 0 else "Xcov"
+        N = rng.choice([1, 2, 2, 3, 3, 4])
+        n = 2 * N
+        variant = rng.choice(["sym", "sym", "eps-after", "eps-before", "mix-eps", "mix", "squeeze", "partial", "none", "badpair"])
+        prog = sf.Program(n)
+        eps = rng.choice([5e-6, 9e-6, 1.2e-5, 2e-5, 1e-4, 1e-3])
+        th = rng.choice([1e-9, 4e-9, 2.5e-8, 1e-6, 0.3])
+        with prog.context as q:
+            for i in range(N):
+                b = i + N if not (variant == "badpair" and i == 0 and N >= 2) else 1 + N
+                ops.S2gate(rng.choice([0.5, 1.0, 0.25])) | (q[i], q[b])
+            if variant != "none":
+                if variant == "partial" and N >= 2:
+                    ops.Rgate(0.5) | q[0]; ops.Rgate(0.5) | q[N]
+                else:
+                    U = hw12.rand_unitary(nprng, N, rng.choice(["haar", "real", "phased_perm"]))
+                    D = np.diag(np.exp(1j * eps * np.ones(N)))
+                    U2 = D @ U if variant == "eps-after" else (U @ D if variant == "eps-before" else U)
+                    ops.Interferometer(U) | tuple(q[:N])
+                    ops.Interferometer(U2) | tuple(q[N:])
+                if variant in ("mix-eps", "mix"):
+                    ops.BSgate(th if variant == "mix-eps" else 0.4, 0.0) | (q[0], q[N])
+                if variant == "squeeze":
+                    ops.Sgate(0.3) | q[0]
+            ops.MeasureFock() | tuple(q)
+        mod = xu if comp == "Xunitary" else xc
+        store = []
+        origGU = mod.GaussianUnitary
+        mod.GaussianUnitary = spy_class(store)
+        cls = xu.Xunitary if comp == "Xunitary" else xc.Xcov
+        try:
+            seq = cls().decompose(prog.circuit)
+            out = cls().compile(seq, prog.register)
+            verdict = "ok"
+        except CircuitError as e:
+            verdict = next((v for m, v in msgs.items() if m in str(e)), None)
+            out = None
+        finally:
+            mod.GaussianUnitary = origGU
+        if verdict is None or not store:
+            ctx.tally("corr:xcheck:skipped")
+            continue
+        gu = store[0]
+        if gu and not isinstance(gu[0].op, ops.MeasureFock):
+            S = np.array(gu[0].op.p[0], dtype=float)
+            used = [r.ind for r in gu[0].reg]
+        else:
+            S, used = np.identity(2 * n), list(range(n))
+        case = dict(comp=comp, N=N, variant=variant, eps=eps, th=th)
+        ctx.count(f"corr:xcheck:{comp}", case, variant not in ("sym", "none"))
+        ctx.tally(f"corr:xcheck:{comp}:{verdict}")
+        if comp == "Xunitary":
+            reqs.append(dict(op="hw.xunitaryCheck", half=N, S=[[F(x) for x in r] for r in S], used=used))
+            pend.append(("Xunitary validation verdict", case, verdict))
+        else:
+            S2 = expand(S, used, n) if len(used) != n else S
+            A = Amat((sf.hbar / 2) * S2 @ S2.T, hbar=sf.hbar)
+            reqs.append(dict(op="hw.xcovCheck", half=N, A=[[[F(z.real), F(z.imag)] for z in r] for r in A]))
+            pend.append(("Xcov validation verdict", case, verdict))
+            if verdict == "ok" and out is not None:
+                # which Takagi value squeezes which pair
+                sqs, _ = takagi(A[:N, N:n])
+                got = [(c.reg[0].ind, c.reg[1].ind, float(c.op.p[0])) for c in out if isinstance(c.op, ops.S2gate)]
+                impl = []
+                for a, b, r in got:
+                    cands = [j for j in range(N) if abs(np.tanh(r) - sqs[j]) < 1e-9]
+                    impl.append([a, b, a if a in cands else (cands[0] if cands else -1)])
+                reqs.append(dict(op="hw.xcovSqueezers", half=N))
+                pend.append(("Xcov squeezer bookkeeping", case, impl))
+    return reqs, pend
+
+
 def canon(pair, model, impl, case):
     """returns (model', impl') to be compared exactly, or None when they agree by the pair's own rule"""
     if pair == "rectangular_symmetric mode pairs":
@@ -1109,7 +1230,7 @@ def run(ctx, sf):
         else:
             tdm1_oracle(ctx, sf, case)
     # ---- correspondence
-    for fn in (corr_ranges, corr_validate, corr_layout_cache, corr_assert_modes, corr_template, corr_merge):
+    for fn in (corr_ranges, corr_validate, corr_layout_cache, corr_assert_modes, corr_template, corr_merge, corr_xchecks):
         reqs, pend = fn(ctx, sf)
         compare(ctx, reqs, pend)
     reqs, pend = corr_borealis(ctx, sf, fx)
